@@ -17,7 +17,52 @@ pub fn line_for(kind: &str, depth: usize) -> String {
     }
 }
 
+/// Probes where two caps multiply: a recursive user function (frame cap 32) whose recursive call
+/// sits inside nested parentheses / subscripts (nesting cap 64).  The nesting budget is shared by
+/// all active calls, so the native depth stays below 64 levels whatever the product.
+fn product_program(kind: &str, depth: usize) -> Option<Vec<String>> {
+    let p = depth.min(60);
+    match kind {
+        "fnrec-paren" => Some(vec![format!("10 DEF F(X)={}F(X)+1{}", "(".repeat(p), ")".repeat(p)), "20 PRINT F(1)".to_string()]),
+        "fnrec-index" => Some(vec![format!("10 DEF F(X)={}F(X){}+1", "A(".repeat(p), ")".repeat(p)), "20 PRINT F(1)".to_string()]),
+        "fnmutual-paren" => Some(vec![format!("10 DEF F(X)={}G(X)+1{}:DEF G(X)={}F(X)+1{}", "(".repeat(p / 2), ")".repeat(p / 2), "(".repeat(p), ")".repeat(p)), "20 PRINT F(1)".to_string()]),
+        _ => None,
+    }
+}
+
 pub fn run(kind: &str, depth: usize) {
+    if product_program(kind, depth).is_some() {
+        // on a 2 MiB thread -- what Rust gives every spawned thread by default, and so what a host
+        // embedding the interpreter off its main thread would have; the legal 64 levels fit easily
+        let (k, d) = (kind.to_string(), depth);
+        let h = std::thread::Builder::new().stack_size(2 * 1024 * 1024).spawn(move || run_product(&k, d)).expect("spawn");
+        if h.join().is_err() {
+            std::process::exit(101);
+        }
+        return;
+    }
+    run_plain(kind, depth)
+}
+
+fn run_product(kind: &str, depth: usize) {
+    if let Some(lines) = product_program(kind, depth) {
+        let mut s2 = Sess::new(false, false);
+        for l in &lines {
+            s2.apply(&call_submit(l));
+        }
+        let mut ev2 = s2.apply(&call_submit("RUN"));
+        let mut n = 0;
+        while !s2.dead && s2.mode() == "running" && n < 400 {
+            ev2 = s2.apply(&call_simple("continue"));
+            n += 1;
+        }
+        let usable = !s2.dead && s2.mode() == "idle" && s2.apply(&call_submit("PRINT 1"))["res"]["ok"] == true;
+        let part = json!({"ok": ev2["res"]["ok"], "err": ev2["res"]["kind"], "mode": ev2["snap"]["mode"]});
+        println!("{}", json!({"kind": kind, "depth": depth, "returned": true, "panicked": ev2["panic"] == true, "immediate": part, "program": part, "usable_afterwards": usable}));
+    }
+}
+
+fn run_plain(kind: &str, depth: usize) {
     let line = line_for(kind, depth);
     let out = if kind.starts_with("ana-") {
         let an = crate::analyzer::analyze(&format!("10 {}", line));
